@@ -88,6 +88,34 @@ fn witnesses() -> Vec<(&'static str, &'static str, &'static str)> {
     ]
 }
 
+/// two source entities of one name in one namespace: no Go identifier can serve both, so the
+/// only consistent answer is a diagnostic (accepting means one entity is dropped or redeclared)
+fn duplicates() -> Vec<(&'static str, &'static str)> {
+    vec![
+        ("fn-fn", "fn zzq() -> int32 { 1 }\nfn zzq() -> int32 { 2 }\nfn main() { string_println(int32_to_string(zzq())) }\n"),
+        ("fn-fn-other-signature", "fn zzq() -> int32 { 1 }\nfn zzq(a: int32) -> int32 { a }\nfn main() { string_println(int32_to_string(zzq())) }\n"),
+        ("struct-struct", "struct Zq { a: int32 }\nstruct Zq { b: bool }\nfn main() { let s = Zq { b: true }; string_println(bool_to_string(s.b)) }\n"),
+        ("enum-enum", "enum Zq { A, B }\nenum Zq { C }\nfn main() { let e = C; string_println(\"x\") }\n"),
+        ("struct-enum", "struct Zq { a: int32 }\nenum Zq { A }\nfn main() { string_println(\"x\") }\n"),
+        ("enum-struct", "enum Zq { A }\nstruct Zq { a: int32 }\nfn main() { string_println(\"x\") }\n"),
+        ("trait-trait", "trait Tq { fn m(Self) -> int32; }\ntrait Tq { fn n(Self) -> int32; }\nimpl Tq for int32 { fn n(self: int32) -> int32 { self } }\nfn main() { string_println(int32_to_string(Tq::n(1))) }\n"),
+        ("fn-params", "fn dup(x: int32, x: int32) -> int32 { x }\nfn main() { string_println(int32_to_string(dup(1, 2))) }\n"),
+        ("fn-params-apart", "fn dup(x: int32, y: bool, x: int32) -> int32 { x }\nfn main() { string_println(int32_to_string(dup(1, true, 2))) }\n"),
+        ("method-params", "struct S { a: int32 }\nimpl S { fn m(self: S, k: int32, k: int32) -> int32 { k } }\nfn main() { let s = S { a: 1 }; string_println(int32_to_string(s.m(1, 2))) }\n"),
+        ("method-param-self", "struct S { a: int32 }\nimpl S { fn m(self: S, self: int32) -> int32 { self } }\nfn main() { let s = S { a: 1 }; string_println(int32_to_string(s.m(2))) }\n"),
+        ("trait-impl-method-params", "trait Tq { fn m(Self, int32, int32) -> int32; }\nimpl Tq for int32 { fn m(self: int32, k: int32, k: int32) -> int32 { k } }\nfn main() { string_println(int32_to_string(Tq::m(1, 2, 3))) }\n"),
+        ("variant-variant", "enum E { A, A }\nfn main() { let e = A; string_println(\"x\") }\n"),
+        ("variant-variant-payload", "enum E { A, A(int32) }\nfn main() { let e = A; string_println(\"x\") }\n"),
+        ("variant-variant-apart", "enum E { A(int32), B, A(bool) }\nfn main() { let e = B; string_println(\"x\") }\n"),
+        ("field-field", "struct S { a: int32, a: bool }\nfn main() { let s = S { a: 1 }; string_println(\"x\") }\n"),
+        ("field-field-same-type", "struct S { a: int32, b: int32, a: int32 }\nfn main() { let s = S { a: 1, b: 2 }; string_println(\"x\") }\n"),
+        ("extern-fn", "extern \"go\" \"strings\" \"ToUpper\" zzq(s: string) -> string\nfn zzq(s: string) -> string { s }\nfn main() { string_println(zzq(\"a\")) }\n"),
+        ("fn-extern", "fn zzq(s: string) -> string { s }\nextern \"go\" \"strings\" \"ToUpper\" zzq(s: string) -> string\nfn main() { string_println(zzq(\"a\")) }\n"),
+        ("method-method", "struct S { a: int32 }\nimpl S { fn m(self: S) -> int32 { 1 } fn m(self: S) -> int32 { 2 } }\nfn main() { let s = S { a: 1 }; string_println(int32_to_string(s.m())) }\n"),
+        ("trait-impl-method-method", "trait Tq { fn m(Self) -> int32; }\nimpl Tq for int32 { fn m(self: int32) -> int32 { 1 } fn m(self: int32) -> int32 { 2 } }\nfn main() { string_println(int32_to_string(Tq::m(1))) }\n"),
+    ]
+}
+
 pub struct NamesFamily;
 
 fn run_text(ctx: &mut Ctx, text: &str) -> Result<Obs, (String, String)> {
@@ -119,7 +147,7 @@ impl Family for NamesFamily {
         &["C19", "C02", "C04"]
     }
     fn rule(&self) -> &'static str {
-        "75 hostile identifiers (Go keywords that goml allows, predeclared identifiers, runtime helper names, compiler temporaries, generated type/helper names, mangling look-alikes such as a__0) x 14 roles (fn, param, local, pattern variable, closure parameter, struct, field, enum, variant, trait, method, type parameter, fn next to temporaries, fn called from a closure) plus 14 collision witnesses for generated names; oracle: emitted Go passes the Go checker and prints exactly what the twin with a benign identifier prints (= the hard-wired expected output). non-trivial = cases whose hostile name survives into the Go text unescaped or mangled; distinct = distinct source text"
+        "75 hostile identifiers (Go keywords that goml allows, predeclared identifiers, runtime helper names, compiler temporaries, generated type/helper names, mangling look-alikes such as a__0) x 14 roles (fn, param, local, pattern variable, closure parameter, struct, field, enum, variant, trait, method, type parameter, fn next to temporaries, fn called from a closure) plus 14 collision witnesses for generated names, plus 21 programs declaring two entities of one name in one namespace (functions, types, traits, parameters of functions/methods/impl methods, variants, fields, extern vs fn, methods of one impl) that must be rejected; oracle: emitted Go passes the Go checker and prints exactly what the twin with a benign identifier prints (= the hard-wired expected output). non-trivial = cases whose hostile name survives into the Go text unescaped or mangled; distinct = distinct source text"
     }
     fn cases(&self, _tier: Tier) -> Box<dyn Iterator<Item = Value> + '_> {
         let mut v = Vec::new();
@@ -131,10 +159,56 @@ impl Family for NamesFamily {
         for (w, _, _) in witnesses() {
             v.push(json!({"kind": "witness", "name": w}));
         }
+        for (d, _) in duplicates() {
+            v.push(json!({"kind": "duplicate", "name": d}));
+        }
         Box::new(v.into_iter())
     }
     fn run(&self, case: &Value, ctx: &mut Ctx) -> Report {
         let mut rep = Report::default();
+        if case["kind"] == "duplicate" {
+            let name = case["name"].as_str().unwrap();
+            let text = duplicates().into_iter().find(|(n, _)| *n == name).unwrap().1.to_string();
+            let replay = json!({"kind": "text", "text": text, "oracle": "must-reject"});
+            rep.nontrivial_key = Some(text.clone());
+            let path = ctx.scratch.single_path();
+            match compile_at(&path, &text) {
+                CompileOutcome::Err(e) => {
+                    let (stage, msg) = describe_err(&e);
+                    rep.tag(format!("duplicate:rejected:{}", stage));
+                    rep.outcome = Some(format!("rejected:{}", normalise_msg(&msg)));
+                }
+                CompileOutcome::Ok(c) => {
+                    rep.tag("duplicate:accepted");
+                    rep.outcome = Some("accepted".into());
+                    rep.findings.push(Finding {
+                        property: "C19",
+                        class: "names.duplicate-accepted".into(),
+                        site: format!("duplicate={}", name),
+                        detail: "two source entities share one name in one namespace and the program was accepted".into(),
+                        replay: replay.clone(),
+                    });
+                    if let Ok(go) = go_text(&c) {
+                        if let GoVerdict::Rejected(errs) = &analyse_and_run(go, FUEL).verdict {
+                            rep.findings.push(Finding {
+                                property: "C02",
+                                class: format!("go.{}", errs[0].rule),
+                                site: format!("duplicate={}", name),
+                                detail: format!("line {}: {}", errs[0].line, errs[0].msg),
+                                replay,
+                            });
+                        }
+                    }
+                }
+                CompileOutcome::Panic(m) => {
+                    let m = normalise_msg(&m);
+                    for p in ["C19", "C04"] {
+                        rep.findings.push(Finding { property: p, class: "compile.panic".into(), site: format!("duplicate={};msg={}", name, m), detail: m.clone(), replay: replay.clone() });
+                    }
+                }
+            }
+            return rep;
+        }
         let (text, expected, site) = if case["kind"] == "witness" {
             let name = case["name"].as_str().unwrap();
             let (_, t, e) = witnesses().into_iter().find(|(n, _, _)| *n == name).unwrap();
